@@ -3,20 +3,36 @@
 import json, collections
 M = json.load(open('/verif/seeded/MATRIX.json'))
 WHY = {
- "C05-b2": "value-level: the flush condition of DeleteRange is modular arithmetic on a counter (numKV % 1000); a path-insensitive must-flush rule would also flag the correct code",
- "C14-b1": "value-level: a 4–4 vote tie decided by scan order inside downresArray; the sibling-direction rule R14.5 sees the same comparison",
+ "C05-d4": "value-level: `>=` instead of `>` in an early return for inverted intervals (single-key intervals come back empty)",
+ "C08-c2": "value-level: which map loses an entry when a supervoxel's count in a block drops to zero (the block entry instead of the count)",
+ "C08-c4": "ordering of the mapping/log step before a per-block rejection: the unchanged code also has error exits behind that step, so no must-precede rule separates the two",
+ "C09-a1": "value-level: row stride of a local variable (ny for nx) in BinaryBlock.Read; no size object is involved that R18.6 could see",
+ "C09-b1": "value-level: a sentinel (MaxUint64) that is itself a legal label in encodeBlock's first pass",
+ "C09-b2": "value-level: where the 'all requested labels located' exit is tested in WriteBinaryBlocks' table scan",
+ "C09-b3": "value-level: a dropped index indirection (curIndices[]) in one of three branches of writeRLEs",
+ "C09-b4": "value-level: which of two size fields (volume vs block) is passed to MakeSolidBlock",
+ "C09-c2": "value-level: gy for gx in a row-major sub-block number (only non-cubic blocks)",
+ "C12-c4": "timing: the counter raise is moved into a goroutine; the unchanged tree does the same for block writes (§8.9), so a 'raise before acknowledging' rule would fire there too and no demonstration of that was found",
+ "C13-c1": "value-level: additions applied before deletions in mutateBlock's per-label update",
+ "C13-c4": "value-level: an ElementPos reported to subscribers for replaced elements as well (counts exceed elements); the index itself stays right",
+ "C14-b1": "value-level: a 4-4 vote tie decided by scan order inside downresArray; the sibling-direction rule R14.5 sees the same comparison",
+ "C14-c4": "the single-pass rewrite of downresArray removes the loop shape R14.5 is anchored on: the check ends UNDECIDED (exit 2), i.e. it is flagged for review but not as a violation",
+ "C15-b4": "value-level: a plausibility bound (128:1) on the LZ4 ratio rejects legitimate data (the unchanged tree now has the format's own 255:1 bound)",
  "C16-a1": "value-level: which fields a conditional update keeps",
- "C16-a3": "value-level: inclusive vs exclusive upper end of an id range (> vs >= in an otherwise monotone predicate)",
  "C16-b2": "value-level: which _user/_time stamps a conditional update rewrites",
+ "C16-c1": "value-level: an integral float is no longer normalised to the integer list in checkField",
  "C17-a1": "value-level: a byte offset loses its bytes-per-voxel factor in the YZ-slice copy of readBlock (wrong only for multi-byte voxels)",
- "C17-a2": "value-level: floor division for negative coordinates rewritten (exact multiples of the block size come out one block low)",
  "C17-a4": "value-level: the order of two span comparisons in roi InsideFast (the x1 test hoisted before the y/z match)",
  "C17-b4": "value-level: boolean logic of Isotropy2D's early returns",
- "C09-a1": "value-level: row stride of a local variable (ny for nx) in BinaryBlock.Read; no size object is involved that R18.6 could see",
- "C15-b4": "value-level: a plausibility bound (128:1) on the LZ4 ratio rejects legitimate data",
+ "C17-c4": "value-level: InsideFast no longer advances to the next span of the same row (the exits it takes are still lexicographically guarded, so R18.9 is satisfied)",
+ "C18-b1": "value-level: a stale local (the un-clipped start) in the max-X clip of RLEs.FitToBounds",
+ "C18-b3": "a versioned query filtered by instance-level (unversioned) Z extents: would need a notion of which fields are per version",
+ "C18-c2": "value-level: `else if` instead of `if` between the left and right extension in RLEs.Add",
  "C19-b3": "value-level: which ancestors calcVersionPath keeps",
  "C20-b2": "value-level: order of swap-with-last deletions",
- "C08-b3": "schedule property: decided by C11 R11.1 (listed under C11 in checked_against)",
+ "C20-c3": "ordering: a consistency check moved behind the block rewrite in SplitLabels (split endpoint, off by default); 'validate before the first store write' is not a shape the unchanged handlers share",
+ "C20-d3": "WaitGroup balance: Add moved inside a condition while every queued item still calls Done; needs a count argument across a channel",
+ "C20-d4": "value-level: ascending instead of descending order of swap-with-last deletions",
 }
 by = collections.defaultdict(list)
 for k, v in sorted(M.items()):
